@@ -110,6 +110,10 @@ class G:
             body = self.block(d + 1, inloop, True) if r.random() < 0.6 else []
             if not hasdef and r.random() < 0.25: hasdef = True; cases.append((None, body))
             else: cases.append((vals.pop(), body))
+        if not hasdef and r.random() < 0.12:
+            # no default and every case body leaves on its own: only the switch itself continues after it
+            cases = [(v, (b + [r.choice([("end",), ("return",)])]) if b else b) for v, b in cases]
+            if cases and not cases[-1][1]: cases[-1] = (cases[-1][0], [self.cmd(), ("end",)])
         if self.use_autovar and r.random() < 0.15:
             n = r.randint(2, 5); operand = ("auto", "random(%d)" % n, "random %d" % n, "VAR_RESULT")
         else: operand = ("var", r.choice(VARS))
